@@ -44,6 +44,7 @@ Diff == {n \in S!Regs \ {"ESR"} : RegOf(T[l].t)[n] # reg[n]}
         \cup (IF out = T[l].out \/ (T[l].op = <<"cmd", "*SRE?">> /\ Len(T[l].out) = 1 /\ S!Bits(T[l].out[1]) \ {6} = S!Bits(out[1]) \ {6})
               THEN {} ELSE {"out"})
         \cup (IF srq # <<>> /\ T[l].srq = <<>> THEN {"srq-missing"} ELSE {})
+        \cup (IF srq # <<>> /\ T[l].srq # <<>> /\ S!Bits(T[l].srq[Len(T[l].srq)]) # StbOf(T[l].t) THEN {"srq-not-current-status-byte"} ELSE {})
         \cup (IF \E i \in 1..Len(T[l].srq) : 6 \notin S!Bits(T[l].srq[i]) THEN {"srq-without-mss"} ELSE {})
         \cup (IF T[l].srq # <<>> /\ 6 \notin StbOf(T[l].t) /\ 6 \notin StbOf(T[l].f) THEN {"srq-while-mss-clear"} ELSE {})
 Conforms == phase = 1 =>
